@@ -48,6 +48,7 @@ class Contract:
     ghostparams: List[str] = field(default_factory=list)            # R9: extra ghost parameters
     ghostargs: List[Tuple[str, str]] = field(default_factory=list)  # R9: (callee regex, extra ghost argument)
     closures: Dict[str, Dict[str, str]] = field(default_factory=dict)  # let-bound closure name -> {ret, requires, ensures}
+    slice: Dict[str, str] = field(default_factory=dict)   # R34: statement range of a larger fn verified as a fn of its own
     src: str = ''       # vspec file
     line: int = 0
     opens: bool = False  # has any clause
@@ -142,6 +143,11 @@ def load_contracts(cdir=None) -> Dict[Tuple[str, str], Contract]:
                     cur.common_inv += '        ' + arg.rstrip(',') + ',\n'
                 elif d == '@nloops':
                     cur.nloops = int(arg)
+                elif d in ('@slice_from', '@slice_to'):
+                    m = re.match(r'/(.*)/\s*$', arg.strip())
+                    cur.slice[d[7:]] = m.group(1)
+                elif d in ('@slice_sig', '@slice_tail'):
+                    cur.slice[d[7:]] = arg.strip()
                 else:
                     raise WeaveError('%s:%d unknown directive %s' % (fn, ln, d))
             elif st.startswith('#') and sect is None:
@@ -1203,13 +1209,31 @@ class Unit:
 
     def fn_text(self, rel, path, mode, extra_ensures=None, rename=None):
         """mode: body | standin"""
-        src, it = self.repo.item(rel, path)
+        base = path.split('#', 1)[0]
+        src, it = self.repo.item(rel, base)
         if it.kind != 'fn':
             raise LostAnchor('%s::%s is not a fn' % (rel, path))
         c = self.contracts.get((rel, path))
         site = '%s::%s' % (rel, path)
         raw = src[it.start:it.end]
         line0 = rustlex.line_of(src, it.start)
+        if '#' in path:
+            # R34: a contiguous statement range of a function too large / too far outside the verifier's reach, verified
+            # as a function of its own.  The lines from the first line matching `slice_from` through the first later line
+            # matching `slice_to` are copied verbatim; the signature (the range's free variables) and the tail expression
+            # come from the contract.  Everything of the enclosing function outside the range is dropped.
+            if c is None or not all(k in c.slice for k in ('from', 'to', 'sig', 'tail')):
+                raise WeaveError('slice without @slice_from/@slice_to/@slice_sig/@slice_tail: ' + site)
+            lines = raw.split('\n')
+            a = next((i for i, l in enumerate(lines) if re.search(c.slice['from'], l)), None)
+            if a is None:
+                raise LostAnchor('%s: slice start /%s/ not found' % (site, c.slice['from']))
+            b = next((i for i in range(a, len(lines)) if re.search(c.slice['to'], lines[i])), None)
+            if b is None:
+                raise LostAnchor('%s: slice end /%s/ not found' % (site, c.slice['to']))
+            line0 = line0 + a
+            raw = c.slice['sig'] + ' {\n' + '\n'.join(lines[a:b + 1]) + '\n        ' + c.slice['tail'] + '\n}'
+            self.log.add('R34(statement range of %s verified as a function of its own)' % base, site, 1)
         if mode == 'standin':
             header, _ = split_fn(rw_R9(strip_attrs_and_docs(vis_rewrite(raw)), c, site, RewriteLog(), header_only=True))
             if c is None:
@@ -1361,9 +1385,9 @@ class Unit:
                 self.emit(text, e[1], rustlex.line_of(src, it.start))
             elif kind in ('body', 'standin'):
                 rel, path = e[1], e[2]
-                src, it = self.repo.item(rel, path)
-                # impl grouping
-                if '::' in path:
+                src, it = self.repo.item(rel, path.split('#', 1)[0])
+                # impl grouping (a slice, R34, is emitted as a free function)
+                if '::' in path and '#' not in path:
                     hdr_path = path.rsplit('::', 1)[0]
                     _, impl_it = self.repo.item(rel, hdr_path)
                     hdr = impl_it.impl_header.strip()
@@ -1400,7 +1424,7 @@ class Unit:
                 if kind == 'body':
                     self.functions.append(rec)
                     if self.want_twins:
-                        tname = it.name + '__twin'
+                        tname = (it.name if '#' not in path else path.split('#', 1)[1]) + '__twin'
                         ttext, _ = self.fn_text(rel, path, 'body', extra_ensures='false', rename=tname)
                         for an, ty in assoc.items():
                             ttext = re.sub(r'\bSelf::%s\b' % an, ty, ttext)
